@@ -70,16 +70,41 @@ Definition documented_note (mp : bytes * bytes) : bool :=
 
 Definition safe_tok (t : ltoken) : bool := match t with Lit c => safe_literal c | _ => true end.
 
-(** a token that can stand at either end of a heading: a digit token or a
-    literal the parser's trimming does not touch (of the safe literals: [/] and [.]) *)
+(** a token that can stand at either end of a heading that is READ: an element or a
+    literal the parser's trimming does not touch (of the safe literals: [/], [.] and [,]) *)
 Definition edge_tok (t : ltoken) : bool :=
   match t with Lit c => negb (memb c trim_text) | _ => true end.
+
+(** the elements of variable width ([2], [_2], [1]): [getnum] reads one digit, or two when a digit follows *)
+Definition var_width (t : ltoken) : bool := match t with D1 | DU | M1 => true | _ => false end.
+
+(** a token whose text cannot begin with a digit: a month name or a literal that is not a digit *)
+Definition nondigit_tok (t : ltoken) : bool :=
+  match t with MonS | MonL => true | Lit c => negb (is_digit c) | _ => false end.
+
+(** every element of variable width is followed by a token that does not begin with a digit, or by the
+    end of the layout: what the element writes is then read back as it was written
+    ([variable_width_needs_separator_refuted] in Proofs/DatesLayout.v: [2] directly before [2006] is not) *)
+Fixpoint sep_ok (toks : list ltoken) : bool :=
+  match toks with
+  | t :: r => (negb (var_width t) || match r with u :: _ => nondigit_tok u | [] => true end) && sep_ok r
+  | [] => true
+  end.
+
+(** the layout begins with [_2], which writes a blank in front of the days 1..9 *)
+Definition under_front (toks : list ltoken) : bool := match toks with DU :: _ => true | _ => false end.
+
+(** what the layout writes it reads back, also as the heading of a log: the variable-width elements
+    are separated, and the layout does not begin with [_2] (a line that begins with a blank is not a
+    heading for the parser: [underday_leading_blank_refuted], finding KF4) *)
+Definition stable_layout (toks : list ltoken) : bool := sep_ok toks && negb (under_front toks).
 
 (** the layout can be printed as a heading line [date:] and be recognised as the heading [date] *)
 Definition heading_layout (toks : list ltoken) : bool :=
   forallb safe_tok toks
   && match toks with t :: _ => edge_tok t | [] => false end
-  && match rev toks with t :: _ => edge_tok t | [] => false end.
+  && match rev toks with t :: _ => edge_tok t | [] => false end
+  && stable_layout toks.
 
 (** the layout without the spaces at its end.  A space of the layout is Go's [time.skip]: at the end
     of the value it matches the empty run, so a heading (which the parser delivers trimmed) is read under
@@ -87,8 +112,14 @@ Definition heading_layout (toks : list ltoken) : bool :=
     trimming removes them again *)
 Definition layout_core (toks : list ltoken) : list ltoken := rev (drop_space_lits (rev toks)).
 
-(** the layout determines a date: year, month and day all occur *)
-Definition full_layout (toks : list ltoken) : Prop := In Y4 toks /\ In M2 toks /\ In D2 toks.
+(** the fields the layout sets, in any of their spellings *)
+Definition has_year (toks : list ltoken) : bool := existsb is_year toks.
+Definition has_month (toks : list ltoken) : bool := existsb is_month toks.
+Definition has_day (toks : list ltoken) : bool := existsb is_day toks.
+
+(** the layout determines a date: a year, a month and a day element all occur *)
+Definition full_layout (toks : list ltoken) : Prop :=
+  has_year toks = true /\ has_month toks = true /\ has_day toks = true.
 
 Open Scope Z_scope.
 Definition valid_civil (c : Z * Z * Z) : Prop :=
@@ -98,7 +129,7 @@ Definition valid_civil (c : Z * Z * Z) : Prop :=
     not mention has Go's default (year 0, month 1, day 1) *)
 Definition civil_fits (toks : list ltoken) (c : Z * Z * Z) : Prop :=
   let '(y, m, d) := c in
-  valid_civil c /\ (~ In Y4 toks -> y = 0) /\ (~ In M2 toks -> m = 1) /\ (~ In D2 toks -> d = 1).
+  valid_civil c /\ (has_year toks = false -> y = 0) /\ (has_month toks = false -> m = 1) /\ (has_day toks = false -> d = 1).
 Close Scope Z_scope.
 
 Section PrintSpec.
